@@ -36,7 +36,8 @@ ASSUMPTIONS = ["explicit key mappings (the inferred map is C17's subject)", "pan
 REQUIRED_CLASSES = {t: ["c12:ids=str", "c12:ids=noncontig", "c12:ids=float", "c12:renamed", "c12:3D",
                         "c12:malformed:duplicate_id", "c12:malformed:unknown_parent", "c12:malformed:self_link",
                         "c12:malformed:missing_column", "c12:malformed:unmapped_key", "part:geff",
-                        "c12:crossed_single_value_names"]
+                        "c12:crossed_single_value_names", "c12:geff_malformed:duplicate_id",
+                        "c12:geff_malformed:unknown_parent", "c12:geff_malformed:self_link"]
                     for t in ("quick", "thorough")}
 
 # Aliases per key: a source column is never spelled like a *different* standard key (a
@@ -349,8 +350,26 @@ def probe_geff(inp) -> ProbeResult:
             warnings.simplefilter("ignore")
             geff.write(g, tmp / "g.zarr", axis_names=[cols["time"]] + [cols[a] for a in axes],
                        axis_types=["time"] + ["space"] * inp["nsp"])
+            if mut in ("duplicate_id", "unknown_parent", "self_link"):
+                # tamper with the written store (geff.write itself only writes valid graphs)
+                import zarr
+
+                z = zarr.open(str(tmp / "g.zarr"), mode="r+")
+                nids = z["nodes"]["ids"]
+                eids = z["edges"]["ids"]
+                k = inp["mpick"]
+                if mut == "duplicate_id" and nids.shape[0] >= 2:
+                    nids[(k + 1) % nids.shape[0]] = nids[k % nids.shape[0]]
+                    tag = mut
+                elif mut == "unknown_parent" and eids.shape[0] >= 1:
+                    eids[k % eids.shape[0], 0] = int(max(nids[:])) + 7
+                    tag = mut
+                elif mut == "self_link" and eids.shape[0] >= 1:
+                    eids[k % eids.shape[0], 0] = eids[k % eids.shape[0], 1]
+                    tag = mut
             if tag:
                 res.tags.append(f"c12:malformed:{tag}")
+                res.tags.append(f"c12:geff_malformed:{tag}")
                 res.nontrivial = ("geff", "malformed", tag, inp["nsp"], len(inp["nodes"]))
                 try:
                     tr = import_from_geff(tmp / "g.zarr", node_name_map=nm)
@@ -358,7 +377,7 @@ def probe_geff(inp) -> ProbeResult:
                     return res
                 except Exception as e:  # noqa: BLE001
                     res.fail(f"malformed_wrong_exception:{tag}:{type(e).__name__}",
-                             f"GEFF import with {mut} raised {e!r} instead of ValueError")
+                             f"GEFF import of a store with {mut} raised {e!r} instead of ValueError")
                     return res
                 res.fail(f"malformed_accepted:{tag}", f"GEFF import with {mut} ({nm}) was accepted")
                 return res
